@@ -259,6 +259,69 @@ def stats(cases, results):
     return d
 
 
-STREAMS = [{"name": "static-values", "gen": gen, "impl": impl, "coq_header": COQ_HEADER, "coq_type": "list Z * list Z",
+# ---- stream 2: classes that share one array of static values; values read after a rename ---------------------------------------
+def gen_shared(rng, tier, ctx):
+    """case = (classes in class_defs order: (name, number of static int fields, values), rename): equal value lists are written
+    once and shared; with rename the field f0 of the first class (whose name is also the text of a String constant) is renamed
+    before any value is read"""
+    import itertools
+    cases = []
+    base = [("Lp/A;", 3, [5, 7]), ("Lp/B;", 2, [5, 7]), ("Lp/C;", 4, [5, 7]), ("Lp/D;", 1, [9])]
+    orders = list(itertools.permutations(range(4)))
+    if tier != "thorough":
+        orders = rng.sample(orders, 8)
+    for o in orders:
+        cases.append(([base[i] for i in o], False))
+    for _ in range(20 if tier == "thorough" else 4):
+        vals = [[rng.choice((1, -1, 300, 70000)) for _ in range(rng.randint(1, 3))] for _ in range(2)]
+        cl = [("Lq/K%d;" % i, rng.randint(1, 5), rng.choice(vals)) for i in range(rng.randint(2, 5))]
+        cases.append((cl, rng.random() < 0.5))
+    cases.append(([("Lp/A;", 2, [1])], True))
+    return cases
+
+
+def impl_shared(case):
+    from tools.writers.dexwriter import DexBuilder
+    from androguard.core.dex import DEX
+    classes, rename = case
+    b = DexBuilder(share_static_values=True)
+    for name, nf, vals in classes:
+        c = b.add_class(name)
+        for i in range(nf):
+            c.add_field("f%d" % i, "I", access=0x8, static=True, value=("int", vals[i]) if i < len(vals) else None)
+        c.add_field("a_s", "Ljava/lang/String;", access=0x8, static=True, value=("string", "f0"))     # sorts first; the text of a field name
+    d = DEX(b.build())
+    if rename:
+        first = [c for c in d.get_classes() if c.get_name() == classes[0][0]][0]
+        [f for f in first.get_fields() if f.get_name() == "f0"][0].set_name("renamed")
+    out = []
+    for name, nf, vals in classes:
+        c = [x for x in d.get_classes() if x.get_name() == name][0]
+        row = {}
+        for f in c.get_fields():
+            iv = f.get_init_value()
+            row[f.get_name()] = None if iv is None else iv.get_value()
+        out.append(row)
+    return out
+
+
+def oracle_shared(case, res):
+    if isinstance(res, Err):
+        return "parsing the generated DEX failed: %s %s" % (res.name, res.msg[:160])
+    classes, rename = case
+    for k, ((name, nf, vals), row) in enumerate(zip(classes, res)):
+        for i in range(nf):
+            fname = "renamed" if (rename and k == 0 and i == 0) else "f%d" % i
+            want = vals[i] if i < len(vals) else None
+            if row.get(fname, "missing") != want:
+                return "class %s (definition %d of %d): static field %s has the initial value %r, encoded is %r" % (name, k + 1, len(classes), fname, row.get(fname, "missing"), want)
+        if row.get("a_s") != "f0":
+            return "class %s: the String constant \"f0\" is reported as %r%s" % (name, row.get("a_s"), " after a field of that name was renamed" if rename else "")
+    return None
+
+
+STREAMS = [{"name": "shared-arrays", "gen": gen_shared, "impl": impl_shared, "pinned": False, "oracle": oracle_shared,
+            "stats": lambda cases, results: {"files": len(cases), "classes": sum(len(c[0]) for c in cases), "with_rename": sum(1 for c in cases if c[1])}},
+           {"name": "static-values", "gen": gen, "impl": impl, "coq_header": COQ_HEADER, "coq_type": "list Z * list Z",
             "coq_input": coq_input, "coq_obs": "obs_static", "model_vo": "Dex/EncodedValueModel.vo", "pinned": False,
             "oracle": oracle, "canon": canon, "stats": stats, "shard": 10}]
